@@ -181,8 +181,9 @@ def cross_process(tasks: list) -> list:
         got = pool.map(_probe, [pickle.dumps(t) for t in tasks])
     out = []
     for t, g in zip(tasks, got):
-        out.append(bool(g['key'] == t.cache_key and g['derived'] == getattr(t, 'derived', None) and g['ctx_none'] and g['meta_none']
-                        and g['no_results'] and g['hashable'] and g['deps'] == [d.cache_key for d in get_direct_dependencies(t)]))
+        out.append((bool(g['key'] == t.cache_key and g['derived'] == getattr(t, 'derived', None) and g['ctx_none'] and g['meta_none']
+                         and g['no_results'] and g['hashable'] and g['deps'] == [d.cache_key for d in get_direct_dependencies(t)]),
+                    g['key']))
     return out
 
 
@@ -315,14 +316,16 @@ def run_job(job, base: Path):
     mains = [MainV(f1=v) for v in (1, 'a', (1, 2), {'k': 1})] + [MainV(f1=[tasks[i]]) for i in sample_ids[:3]]
     res = cross_process([tasks[i] for i in sample_ids] + mains)
     by_id = {o['id']: o for o in out}
-    for i, ok in zip(sample_ids, res):
+    for i, (ok, key_there) in zip(sample_ids, res):
         by_id[i]['pickle_ok'] = bool(by_id[i]['pickle_ok'] and ok)
+        by_id[i]['variants'] = by_id[i]['variants'] + [['pickled_into_spawned_interpreter', key_there]]
         if not ok:
             by_id[i].setdefault('pickle_detail', {})['spawned_interpreter'] = False
-    for k, ok in enumerate(res[len(sample_ids):]):
+    for k, (ok, key_there) in enumerate(res[len(sample_ids):]):
         # reported on an extra observation of the grammar's simplest case so that the judge (TaskValuesObs) sees it
         o = dict(next(x for x in out if x['accepted']))
-        o.update(id=f'{job["id"]}-main{k}', tid=f'{job["id"]}-main{k}', pickle_ok=bool(ok), variants=[], listed_own=1, listed_elsewhere=0,
+        o.update(id=f'{job["id"]}-main{k}', tid=f'{job["id"]}-main{k}', pickle_ok=bool(ok), key=mains[k].cache_key,
+                 variants=[['pickled_into_spawned_interpreter', key_there]], listed_own=1, listed_elsewhere=0,
                  listed_key_ok=True, listed_meta_ok=True, listed_loads_stored=True, ran=True, main_module_type=True)
         out.append(o)
     # fresh-interpreter keys
